@@ -559,8 +559,11 @@ class IsExecutorNeeded(DeclContract):
                 proc0, thr0 = B(ctx.st.ghost['ghost:proc0']), B(ctx.st.ghost['ghost:thr0'])
                 proc1, thr1 = B(ctx.var('is_process_pool_needed')), B(ctx.var('is_thread_pool_needed'))
                 in_proc = TAG_IN(tags, S('process'))
-                out.append(('process-flag-raised-exactly-for-sync-process-nodes', proc1 == z3.Or(proc0, z3.And(is_sync, in_proc))))
-                out.append(('thread-flag-raised-exactly-for-other-sync-nodes', thr1 == z3.Or(thr0, z3.And(is_sync, z3.Not(in_proc)))))
+                # C17: a pool is needed iff some node's execution mode uses it.  run_node decides the mode in this order:
+                # coroutine function -> on the loop; non_async tag -> inline; process tag -> process pool; else thread pool
+                uses_pool = z3.And(is_sync, z3.Not(TAG_IN(tags, S('non_async'))))
+                out.append(('process-flag-raised-exactly-for-nodes-run-in-the-process-pool', proc1 == z3.Or(proc0, z3.And(uses_pool, in_proc))))
+                out.append(('thread-flag-raised-exactly-for-nodes-run-in-the-thread-pool', thr1 == z3.Or(thr0, z3.And(uses_pool, z3.Not(in_proc)))))
             return out
 
         def remember_flags(ctx):
